@@ -28,6 +28,10 @@ def _read(ex, self, n=-1):
         k = If(n < 0, rest, If(n < rest, n, rest))
         k = z3.simplify(k)
     else:
+        # a source of any kind: io.BufferedReader (a pipe, a socket file) refuses sizes below -1 ("read length must be
+        # non-negative or -1"), raw streams read everything for any negative size -- a caller may rely on neither
+        if ex.choose(n < -1, 'size-below-minus-one'):
+            raise _Raise(ExcV('ValueError'))
         if ex.choose(ex.fresh('read.none', BoolSort()), 'read-none'):
             self.fields['none_seen'] = True      # ghost: the source said 'no data yet' at least once
             return None
